@@ -349,8 +349,9 @@ theorem foreign_attr_readings (tx : Bytes) (d : Decoded) (htx : tx.length = 12) 
     (∀ v, attrStep tx d 0x0013 v = { d with data := some v }) ∧
     (∀ v, v < 4294967296 → attrStep tx d 0x000D (be32 v) = { d with lifetime := some v }) ∧
     (∀ v, attrStep tx d 0x0025 v = { d with useCandidate := true }) ∧
-    (∀ t v, t ∉ [0x0020, 0x0012, 0x0016, 0x0009, 0x0014, 0x0015, 0x0013, 0x000D, 0x0025] → attrStep tx d t v = d) := by
-  refine ⟨?_, ?_, ?_, ?_, ?_, ?_, ?_, ?_, ?_, ?_⟩
+    (∀ v, v < 4294967296 → attrStep tx d 0x0024 (be32 v) = { d with priority := some v }) ∧
+    (∀ t v, t ∉ [0x0020, 0x0012, 0x0016, 0x0009, 0x0014, 0x0015, 0x0013, 0x000D, 0x0025, 0x0024] → attrStep tx d t v = d) := by
+  refine ⟨?_, ?_, ?_, ?_, ?_, ?_, ?_, ?_, ?_, ?_, ?_⟩
   · intro a ha; simp [attrStep, parseXor_xorValue a tx ha htx]
   · intro a ha; simp [attrStep, parseXor_xorValue a tx ha htx]
   · intro a ha; simp [attrStep, parseXor_xorValue a tx ha htx]
@@ -360,9 +361,10 @@ theorem foreign_attr_readings (tx : Bytes) (d : Decoded) (htx : tx.length = 12) 
   · intro v; simp [attrStep]
   · intro v hv; simp only [attrStep, be32]; simp [rd32_be32 hv]
   · intro v; simp [attrStep]
+  · intro v hv; simp only [attrStep, be32]; simp [rd32_be32 hv]
   · intro t v ht
     simp only [List.mem_cons, List.not_mem_nil, or_false, not_or] at ht
-    obtain ⟨h1, h2, h3, h4, h5, h6, h7, h8, h9⟩ := ht
-    simp [attrStep, h1, h2, h3, h4, h5, h6, h7, h8, h9]
+    obtain ⟨h1, h2, h3, h4, h5, h6, h7, h8, h9, h10⟩ := ht
+    simp [attrStep, h1, h2, h3, h4, h5, h6, h7, h8, h9, h10]
 
 end RtcModel.StunRfc
